@@ -1636,8 +1636,15 @@ class RecordTensor(ShapedTensor):
             inplace (bool, optional): if the operation should be performed in-place
                 with :py:class:`torch.no_grad`. Defaults to ``False``.
         """
-        if self._ignore(self.__data):
-            self.initialize(obs.shape, device=obs.device, fill=0)
+        data = self.__data
+        if self._ignore(data):
+            # storage without a data type of its own adopts that of the observation
+            self.initialize(
+                obs.shape,
+                device=obs.device,
+                dtype=(obs.dtype if data is None else None),
+                fill=0,
+            )
         self.write(obs, offset=0, inplace=inplace)
         self.incr(1)
 
